@@ -37,6 +37,10 @@ CLAIMS = {
   text="Lean 4 theorems over the same symbolic model: any envelope assembled around the original ciphertext yields the original payload or fails (C02_same_cipher_same_payload), any change of the associated data fails (C02_aad_change_fails), an accepted envelope's reported sender is the protected skid and the used key-encryption key is the 1PU term over exactly that sender (accepted_shape), hence no envelope an outsider can build is attributed to a key it does not hold (C02_no_reattribution); the repaired defect C02-F1 as decide-checked before/after examples. Tie: mutation correspondence on real envelopes (character flips / truncations in every base64 field, protected-header edits, cross-envelope splices, recipient drop/dup/swap, re-serialisation, unprotected headers), every party unpacking original and mutant: fail-or-same for every party, fail for everybody when an authenticated field's bytes changed; the baseline must equal the C01 model's prediction",
   note="trusted: as C01; encoding/base64 decides 'decoded bytes changed'; the model does not predict fail-vs-same per unauthenticated mutation; KDF byte layout (kdfWithTag) is not compared byte-exactly yet",
   technique="Lean 4 proof over symbolic crypto + mutation correspondence with fail-or-same oracle"),
+ "C12": dict(
+  text="Lean 4 theorems over symbolic terms (ideal MAC / JWE): everything the EDV formatter hands to the provider for one Put is opaque for every key, value, tag list and both id modes (C12_format_opaque), so are the Key tag of the non-deterministic mode, query expressions and store configurations; any history of provider calls built from these is opaque as a whole (C12_history_opaque, induction over the call list); equal plaintexts give different ciphertext terms (C12_fresh). Tie: the real formattedstore + EncryptedFormatter over a recording provider - every argument of every call is mapped back to a symbolic term with the harness's own keys and judged by the same Opaque predicate (an unexplained argument is a plaintext atom), and every recorded byte string is scanned for every application plaintext in five encodings",
+  note="trusted: Lean kernel; allowed axioms; HMAC / JWE ideal; the harness's recogniser; store names excluded as the property states; call SEQUENCES of formattedstore are not predicted by the model (the opacity of each argument is)",
+  technique="Lean 4 opacity proof over symbolic terms + recording-provider correspondence and plaintext scan"),
 }
 
 def main():
